@@ -32,7 +32,8 @@ CONSTANTS Clients,     \* subscribed clients (all of them are subscribed when th
           MaxLocal,    \* local operations per client
           MaxSyncs,    \* syncs in total
           MaxPatches,  \* REST patches in total (documents only; 0 otherwise)
-          MaxUpdaters  \* updaters alive at the same time
+          MaxUpdaters, \* updaters alive at the same time
+          InitSnapshot \* TRUE: the creation push's snapshot update has run; FALSE: it was skipped (no snapshot, no user document)
 
 VARIABLES end,      \* length of the stored log
           pend,     \* pend[c]: local operations of c not yet pushed
@@ -54,7 +55,8 @@ Patcher == 0   \* the administrative patch client
 Init == /\ end = 1                       \* the creation operation of the datatype
         /\ pend = [c \in Clients |-> 0] /\ made = [c \in Clients |-> 0]
         /\ cps = [c \in Clients |-> 1]
-        /\ ups = <<>> /\ lock = 0 /\ snaps = {1} /\ udoc = 1 /\ pubs = <<[c |-> 1, end |-> 1]>>
+        /\ ups = <<>> /\ lock = 0 /\ pubs = <<[c |-> 1, end |-> 1]>>
+        /\ snaps = (IF InitSnapshot THEN {1} ELSE {}) /\ udoc = (IF InitSnapshot THEN 1 ELSE 0)
         /\ nsync = 0 /\ npatch = 0
         /\ act = [name |-> "init"] /\ hist = <<>>
 Record(a) == act' = a /\ hist' = Append(hist, a)
